@@ -3,8 +3,10 @@ package c10
 import (
 	"fmt"
 	"runtime"
+	"runtime/debug"
 	"sort"
 	"sync"
+	"sync/atomic"
 	"testing"
 
 	"github.com/iotaledger/hive.go/ds"
@@ -22,7 +24,7 @@ import (
 // ever move their own handles to the front leave their own handles in the reverse order of their last moves.
 func TestThreadSafeListConcurrentConsistency(t *testing.T) {
 	const check = "threadsafe_list_concurrent_consistency"
-	stats.Rule(check, "rapid draws 2..8 goroutines on ONE thread-safe ds.List (NewList() or NewList(false), drawn), each owning 2..4 handles it pushed before the start, and a per-goroutine script of 10..60 operations from {MoveToFront, MoveToBack, MoveBefore/MoveAfter relative to another own handle, PushBack of a fresh value} with drawn yields; all goroutines are released together. Oracle at quiescence (bounded walks): forward walk and backward walk visit the same handles in mirrored order, Len equals that count, the multiset of values equals initial values + pushed values, no handle is lost or duplicated. The interleaving is the scheduler's; 20 s stall-tolerant watchdog. Distinct by program; non-trivial = >= 3 goroutines and >= 100 operations in total")
+	stats.Rule(check, "rapid draws 2..8 goroutines on ONE thread-safe ds.List (NewList() or NewList(false), drawn), each owning 2..4 handles it pushed before the start, and a per-goroutine script of 10..60 operations from {MoveToFront, MoveToBack, MoveBefore/MoveAfter relative to another own handle, PushBack of a fresh value, Remove of one of 0..6 handles shared by all goroutines (racing and repeated Removes of one handle)} with drawn yields; all goroutines are released together. Oracle at quiescence (bounded walks): forward walk and backward walk visit the same handles in mirrored order, Len equals that count, the multiset of values equals initial values + pushed values - shared handles somebody removed, no caller panicked, no handle is lost or duplicated. The interleaving is the scheduler's; 20 s stall-tolerant watchdog. Distinct by program; non-trivial = >= 3 goroutines and >= 100 operations in total")
 	rapid.Check(t, func(rt *rapid.T) {
 		g := rapid.IntRange(2, 8).Draw(rt, "goroutines")
 		// both spellings of "thread-safe": no argument and an explicit false
@@ -48,10 +50,19 @@ func TestThreadSafeListConcurrentConsistency(t *testing.T) {
 			}
 			n := rapid.IntRange(10, 60).Draw(rt, fmt.Sprintf("ops%d", i))
 			total += n
-			sc.ops = rapid.SliceOfN(rapid.IntRange(0, 5), n, n).Draw(rt, fmt.Sprintf("script%d", i))
+			sc.ops = rapid.SliceOfN(rapid.IntRange(0, 6), n, n).Draw(rt, fmt.Sprintf("script%d", i))
 			sc.arg = rapid.SliceOfN(rapid.IntRange(0, 11), n, n).Draw(rt, fmt.Sprintf("args%d", i))
 			scripts[i] = sc
 		}
+		// handles that every goroutine may Remove, at any time and more than once: a Remove of an already removed handle is a
+		// no-op, whichever of two racing calls came first
+		nv := rapid.IntRange(0, 6).Draw(rt, "sharedVictims")
+		victims := make([]ds.ListElement[int], nv)
+		attempted := make([]atomic.Bool, nv)
+		for i := range victims {
+			victims[i] = l.PushBack(500 + i)
+		}
+		var panicked atomic.Value
 		pushBase := 1000
 		var wg sync.WaitGroup
 		start := make(chan struct{})
@@ -60,6 +71,11 @@ func TestThreadSafeListConcurrentConsistency(t *testing.T) {
 			wg.Add(1)
 			go func(i int, sc *script) {
 				defer wg.Done()
+				defer func() {
+					if p := recover(); p != nil {
+						panicked.Store(fmt.Sprintf("%v\n%s", p, debug.Stack()))
+					}
+				}()
 				<-start
 				for k, op := range sc.ops {
 					a := sc.own[sc.arg[k]%len(sc.own)]
@@ -81,6 +97,14 @@ func TestThreadSafeListConcurrentConsistency(t *testing.T) {
 						v := pushBase + i*1000 + k
 						l.PushBack(v)
 						pushed[i] = append(pushed[i], v)
+					case 5:
+						if nv > 0 {
+							vi := sc.arg[k] % nv
+							attempted[vi].Store(true)
+							if got := l.Remove(victims[vi]); got != 500+vi {
+								panicked.Store(fmt.Sprintf("Remove of shared handle %d returned %d, want its value %d", vi, got, 500+vi))
+							}
+						}
 					default:
 						runtime.Gosched()
 					}
@@ -97,9 +121,17 @@ func TestThreadSafeListConcurrentConsistency(t *testing.T) {
 		if !ctl.WithinHang(wg.Wait) {
 			fail("callers did not return\n%s", ctl.Dump())
 		}
+		if p := panicked.Load(); p != nil {
+			fail("a caller failed: %v", p)
+		}
 		for i := range pushed {
 			for _, v := range pushed[i] {
 				want[v]++
+			}
+		}
+		for i := range victims {
+			if !attempted[i].Load() {
+				want[500+i]++
 			}
 		}
 		expectLen := 0
